@@ -1,5 +1,6 @@
 import NessaiVerif.Model.OrderedSamples
 import NessaiVerif.Proofs.Ordered
+import NessaiVerif.Gen.OrderedTx
 /-
 C04 — the INS sample store stays sorted, partitioned and aligned under all updates.
 Property theorems only; lemmas are in Proofs/{InsertMany,MergeInsert,Ordered}.lean.
@@ -282,5 +283,15 @@ example (s : OS) (hs : run { strict := true, replAll := false }
     ∃ smp, WellFormed s smp := by
   obtain ⟨smp, hinv⟩ := reachable_inv s ⟨true, false, _, _, by decide, hs⟩
   exact ⟨smp, wellFormed_of_inv hinv⟩
+
+/-- **The source of `add_to_nested_samples` IS the modelled index program** (translation tie).  `Gen/OrderedTx.lean` is
+regenerated on every run from the current text of `OrderedSamples.add_to_nested_samples` by `harness/pyarr2lean.py`
+(`np.searchsorted` of an index array in an index array, `np.insert` at those positions).  The generated definition never
+raises and returns the model's `addToNested` — the step through which `remove_samples` and `finalise` move live points to the
+nested samples — for every pair of index arrays. -/
+theorem add_to_nested_samples_source_eq_model (nested idxs : List Nat) :
+    Gen.OrderedTx.add_to_nested_samples nested idxs = .ok (addToNested nested idxs) := rfl
+
+example := add_to_nested_samples_source_eq_model [0, 2, 5] [1, 3]
 
 end NessaiVerif.C04
